@@ -703,14 +703,16 @@ def judge_arr_eq_width(ctx, c):
     tc, dt = c['tc'], c['dtype']
     vals = [dec(v) for v in c['vals']]
     arr = array.array(tc, vals)
-    g = call(lambda: bitstring.Array(dt, bytes.fromhex(c['own'])).equals(arr))
+    # 'own' = the same underlying bytes (hex) or the same item values (list) as the array.array
+    own = bytes.fromhex(c['own']) if isinstance(c['own'], str) else [dec(v) for v in c['own']]
+    g = call(lambda: bitstring.Array(dt, own).equals(arr))
     ctx.op('Array.equals', outcome(g))
     if g[0] == 'exc':
         ctx.mismatch(f'C18|array-equals|{tc_class(tc, arr.itemsize)}|unexpected-exc:{type(g[1]).__name__}', short(c), repr(g[1])[:200])
     elif g[1] is not False:
         ctx.mismatch(f'C18|array-equals|{tc_class(tc, arr.itemsize)}|true-for-other-width', short(c), f'{dt} vs {tc}: {g[1]!r}')
     else:
-        ctx.ok(('arr-equals-width', tc, dt), True)
+        ctx.ok(('arr-equals-width', tc, dt, 'same-bytes' if isinstance(c['own'], str) else 'same-values'), True)
 
 
 # ==== le / be / ne relations on whole-byte contents ======================================================
@@ -1119,7 +1121,7 @@ def gen_byteswap(ctx):
         cands = [cd for cd in CODES if SIZE[cd] <= left]
         while cands and len(items) < 4 and (not items or rng.random() < 0.6):
             cd = rng.choice(cands)
-            k = rng.randint(1, min(3, left // SIZE[cd]))
+            k = rng.randint(1, min(3 if rng.random() < 0.7 else 14, left // SIZE[cd]))
             items.append([k, cd])
             left -= k * SIZE[cd]
             cands = [x for x in CODES if SIZE[x] <= left]
@@ -1197,6 +1199,10 @@ def enumerated(ctx):
             own = own[: len(own) - (len(own) % (w // 8))]
             ctx.run_case(judge, {'k': 'arr_eq_width', 'tc': tc, 'dtype': dt, 'vals': [enc(v) for v in arr.tolist()],
                                  'own': own.hex()})
+            # ... and the same item values in the other width
+            same_vals = [enc(float(v)) if dt.startswith('float') else int(v) for v in arr.tolist()]
+            ctx.run_case(judge, {'k': 'arr_eq_width', 'tc': tc, 'dtype': dt, 'vals': [enc(v) for v in arr.tolist()],
+                                 'own': same_vals})
     # every 1-byte content; every 2-byte content in the thorough tier
     for v in range(256):
         i += 1
